@@ -23,7 +23,7 @@ ASSUMPTIONS = ['documented stencils: the first/last 2mm+2 points for the mm poin
                'value is the exact derivative of the polynomial',
                'bound C*(eps*size*sum_j|w_j fx_j| + measured sensitivity to node displacement eps*stencil width)']
 C_PT = 256.0
-KINDS = ['uniform', 'increasing', 'decreasing', 'geometric', 'jittered', 'tiny_unit', 'huge_unit', 'integer_grid', 'far_offset']
+KINDS = ['uniform', 'increasing', 'decreasing', 'geometric', 'jittered', 'tiny_unit', 'huge_unit', 'integer_grid', 'far_offset', 'zero_node']
 
 
 def setup(ctx, mon):
@@ -55,6 +55,15 @@ def make_grid(rng, kind, length):
         # integer abscissae (uniform or not), handed over as an integer array or a list of Python ints, with integer samples
         x = int(rng.integers(-20, 21)) + np.cumsum(rng.integers(1, 4 if rng.random() < 0.6 else 2, size=length))
         return (x[::-1].copy() if rng.random() < 0.3 else x).astype(float)
+    if kind == 'zero_node':
+        # a grid with a node that is exactly zero (0.0 or -0.0) at an end, next to an end, or inside: linspace(0, 1, n),
+        # arange(n), a decreasing grid that ends at 0
+        steps = rng.uniform(0.2, 1.0, length) * 10.0 ** rng.uniform(-2, 0) if rng.random() < 0.6 else np.full(length, float(rng.choice([1.0, 0.125, 0.1])))
+        x = np.cumsum(steps)
+        k = int(rng.choice([0, 0, 1, 2, length - 1, length - 2, length // 2]))
+        x = x - x[k]
+        x[k] = 0.0 if rng.random() < 0.7 else -0.0
+        return x[::-1].copy() if rng.random() < 0.4 else x
     if kind == 'far_offset':
         # an ordinary grid far from the origin compared with its own extent (timestamps, 1e6 + linspace(0, 1, n)): the
         # polynomial is written in the local variable, so the problem is as well conditioned as at the origin
